@@ -102,6 +102,9 @@ struct Scope {
     ctus: Vec<String>,
     trigs: Vec<String>,
     times: Vec<String>,
+    /// assignable bit-string variables: (name, 0 BYTE | 1 WORD | 2 DWORD | 3 LWORD)
+    bitstrs: Vec<(String, u8)>,
+    reals: Vec<String>,
     /// read-only DINT expressions (inputs)
     ro_dints: Vec<String>,
     ro_bools: Vec<String>,
@@ -111,6 +114,8 @@ struct World {
     enums: Vec<EnumT>,
     structs: Vec<StructT>,
     arrays: Vec<(String, usize)>,
+    /// subrange / alias / reference types (declared, used for declarations only)
+    plain_types: Vec<String>,
     funcs: Vec<FuncT>,
     ifaces: Vec<IfaceT>,
     classes: Vec<ClassT>,
@@ -465,7 +470,25 @@ fn stmt(rng: &mut Rng, sc: &Scope, w: &World, depth: u32, level: usize, out: &mu
             indent(out, level);
             let _ = writeln!(out, "{t} := {t} / {d};");
         }
-        _ => bounded_assign(rng, sc, w, level, out),
+        _ => {
+            if !sc.bitstrs.is_empty() && rng.chance(1, 2) {
+                let (v, k) = rng.pick(&sc.bitstrs).clone();
+                let e = dint_expr(rng, sc, w, 1);
+                indent(out, level);
+                let _ = match k {
+                    0 => writeln!(out, "{v} := DINT_TO_BYTE(ABS({e}) MOD 256);"),
+                    1 => writeln!(out, "{v} := DINT_TO_WORD(ABS({e}) MOD 65536);"),
+                    2 => writeln!(out, "{v} := DINT_TO_DWORD(ABS({e}));"),
+                    _ => writeln!(out, "{v} := DINT_TO_LWORD(ABS({e}));"),
+                };
+            } else if !sc.reals.is_empty() && rng.chance(1, 4) {
+                let v = rng.pick(&sc.reals).clone();
+                indent(out, level);
+                let _ = writeln!(out, "{v} := {v} + REAL#0.5;");
+            } else {
+                bounded_assign(rng, sc, w, level, out)
+            }
+        }
     }
 }
 
@@ -521,6 +544,21 @@ fn gen_types(rng: &mut Rng, names: &mut Names, w: &mut World) -> String {
         }
         let _ = writeln!(s, "END_STRUCT\nEND_TYPE\n");
         w.structs.push(StructT { name, fields });
+    }
+    for _ in 0..rng.below(3) {
+        let name = names.fresh(rng, "T");
+        match rng.below(3) {
+            0 => {
+                let _ = writeln!(s, "TYPE {name} : INT({}..{}); END_TYPE\n", rng.below(5), 10 + rng.below(90));
+            }
+            1 => {
+                let _ = writeln!(s, "TYPE {name} : {}; END_TYPE\n", rng.pick(&["DINT", "WORD", "LREAL", "TIME", "STRING[12]"]));
+            }
+            _ => {
+                let _ = writeln!(s, "TYPE {name} : REF_TO {}; END_TYPE\n", rng.pick(&["DINT", "BOOL", "INT"]));
+            }
+        }
+        w.plain_types.push(name);
     }
     for _ in 0..rng.below(3) {
         let name = names.fresh(rng, "A");
@@ -725,6 +763,63 @@ struct GlobalsT {
     direct_outputs: Vec<String>,
     direct_in_vars: Vec<String>,
     direct_out_vars: Vec<String>,
+    /// assignable direct-addressed bit-string globals: (name, type name, kind)
+    bitstrs: Vec<(String, &'static str, u8)>,
+    /// never-assigned overlapping bindings: (area letter, first byte, length) whose image bytes must
+    /// not change from cycle to cycle
+    const_ranges: Vec<(char, usize, usize)>,
+    /// next free byte per area for program-level bindings
+    retain_decl: String,
+}
+
+
+/// Declarations of one group of overlapping direct-address bindings that start in the same byte or
+/// overlap it (`%QB4`, `%QX4.7`, `%QW4`, `%QD4`, `%QL4`, `%QB5`, `%QW3`, ...), in random
+/// declaration order, with initial values whose publication order matters (the byte's own bit 7
+/// differs from the bit variable bound to it, the word's low byte differs from the byte, ...).
+/// Returns (declaration lines, [(name, type, kind or 9 for BOOL)]).
+fn overlap_group(rng: &mut Rng, names: &mut Names, area: char, base: usize, prefix: &str) -> (Vec<String>, Vec<(String, &'static str, u8)>) {
+    let mut members: Vec<(String, &'static str, u8, String)> = Vec::new(); // name, type, kind, address
+    let mut cands: Vec<(&'static str, u8, String, String)> = vec![
+        ("BYTE", 0, format!("%{area}B{base}"), format!("16#{:02X}", 1 + rng.below(126))),
+        ("BOOL", 9, format!("%{area}X{base}.7"), "TRUE".to_string()),
+        ("BOOL", 9, format!("%{area}X{base}.{}", rng.below(7)), if rng.bool() { "TRUE".into() } else { "FALSE".into() }),
+        ("WORD", 1, format!("%{area}W{base}"), format!("16#{:04X}", 0x0100 + rng.below(0x7E00))),
+        ("DWORD", 2, format!("%{area}D{base}"), format!("16#{:08X}", 0x0001_0000 + rng.below(0x7FFE_0000))),
+        ("LWORD", 3, format!("%{area}L{base}"), format!("16#{:08X}", 0x0100_0000 + rng.below(0x7E00_0000))),
+        ("BYTE", 0, format!("%{area}B{}", base + 1), format!("16#{:02X}", 1 + rng.below(254))),
+        ("WORD", 1, format!("%{area}W{}", base + 1), format!("16#{:04X}", 1 + rng.below(0xFFFE))),
+        ("BOOL", 9, format!("%{area}X{}.{}", base + 1, rng.below(8)), "TRUE".to_string()),
+    ];
+    if base > 0 {
+        cands.push(("WORD", 1, format!("%{area}W{}", base - 1), format!("16#{:04X}", 1 + rng.below(0xFFFE))));
+    }
+    // the same-byte pair first (always present), then a random subset of the rest
+    let want = 2 + rng.below(5) as usize;
+    let first = cands.remove(0);
+    let second = cands.remove(rng.below(5) as usize);
+    let mut chosen = vec![first, second];
+    while chosen.len() < want && !cands.is_empty() {
+        let i = rng.below(cands.len() as u64) as usize;
+        chosen.push(cands.remove(i));
+    }
+    // random declaration order
+    for i in (1..chosen.len()).rev() {
+        let j = rng.below(i as u64 + 1) as usize;
+        chosen.swap(i, j);
+    }
+    let mut seen_addr: Vec<String> = Vec::new();
+    let mut lines = Vec::new();
+    for (ty, kind, addr, init) in chosen {
+        if seen_addr.contains(&addr) {
+            continue;
+        }
+        seen_addr.push(addr.clone());
+        let n = names.fresh(rng, prefix);
+        lines.push(format!("    {n} AT {addr} : {ty} := {init};"));
+        members.push((n, ty, kind, addr));
+    }
+    (lines, members.into_iter().map(|(n, t, k, _)| (n, t, k)).collect())
 }
 
 fn gen_globals(rng: &mut Rng, names: &mut Names, scale: u64) -> GlobalsT {
@@ -739,6 +834,9 @@ fn gen_globals(rng: &mut Rng, names: &mut Names, scale: u64) -> GlobalsT {
         direct_outputs: Vec::new(),
         direct_in_vars: Vec::new(),
         direct_out_vars: Vec::new(),
+        bitstrs: Vec::new(),
+        const_ranges: Vec::new(),
+        retain_decl: String::new(),
     };
     let d = &mut g.decl;
     d.push_str("VAR_GLOBAL\n");
@@ -806,7 +904,62 @@ fn gen_globals(rng: &mut Rng, names: &mut Names, scale: u64) -> GlobalsT {
         g.direct_outputs.push(addr);
         g.direct_out_vars.push(n);
     }
+    // overlapping bindings that programs assign (dynamic) ...
+    for area in ['Q', 'M'] {
+        if rng.chance(3, 4) {
+            let base = 4 + 8 * rng.below(3) as usize;
+            let (lines, members) = overlap_group(rng, names, area, base, "ov");
+            for l in lines {
+                let _ = writeln!(d, "{l}");
+            }
+            for (n, t, k) in members {
+                if k == 9 {
+                    g.direct_out_vars.push(n);
+                } else {
+                    g.bitstrs.push((n, t, k));
+                }
+            }
+        }
+    }
+    // ... and overlapping bindings that nothing assigns: their image bytes are constant
+    for area in ['Q', 'M'] {
+        if rng.chance(3, 4) {
+            let base = 40 + 16 * rng.below(2) as usize;
+            let (lines, _members) = overlap_group(rng, names, area, base, "kc");
+            for l in lines {
+                let _ = writeln!(d, "{l}");
+            }
+            g.const_ranges.push((area, base.saturating_sub(1), 10));
+        }
+    }
     d.push_str("END_VAR\n");
+    // retained globals with initialisers (RETAIN_INIT section), several types
+    let r = &mut g.retain_decl;
+    r.push_str("VAR_GLOBAL RETAIN\n");
+    for _ in 0..2 + rng.below(5 * scale) {
+        let n = names.fresh(rng, "keepG");
+        match rng.below(6) {
+            0 => {
+                let _ = writeln!(r, "    {n} : BOOL := {};", if rng.bool() { "TRUE" } else { "FALSE" });
+                g.bools.push(n);
+            }
+            1 => {
+                let _ = writeln!(r, "    {n} : STRING[40] := {};", str_lit(rng));
+                g.strings.push(n);
+            }
+            2 => {
+                let _ = writeln!(r, "    {n} : TIME := T#{}ms;", 1 + rng.below(500));
+            }
+            3 => {
+                let _ = writeln!(r, "    {n} : LREAL := {}.{};", rng.below(90), rng.below(99));
+            }
+            _ => {
+                let _ = writeln!(r, "    {n} : DINT := {};", rng.below(1000));
+                g.dints.push(n);
+            }
+        }
+    }
+    r.push_str("END_VAR\n");
     g
 }
 
@@ -831,6 +984,12 @@ fn gen_program(rng: &mut Rng, names: &mut Names, w: &World, g: &GlobalsT, name: 
     take(rng, &g.strings, "STRING[40]", &mut sc.strings, false);
     take(rng, &g.direct_in_vars, "BOOL", &mut sc.ro_bools, false);
     take(rng, &g.direct_out_vars, "BOOL", &mut sc.bools, false);
+    for (n, t, k) in &g.bitstrs {
+        if rng.chance(2, 3) {
+            let _ = writeln!(ext, "    {n} : {t};");
+            sc.bitstrs.push((n.clone(), *k));
+        }
+    }
     let _ = write!(s, "VAR_EXTERNAL\n{ext}END_VAR\n");
     // locals
     let retain = rng.chance(1, 4);
@@ -925,6 +1084,53 @@ fn gen_program(rng: &mut Rng, names: &mut Names, w: &World, g: &GlobalsT, name: 
         let _ = writeln!(s, "    {n} : R_TRIG;");
         sc.trigs.push(n);
     }
+    // scalars of many elementary types with initialisers (type table, constant pool)
+    for _ in 0..rng.below(6) {
+        let n = names.fresh(rng, "k");
+        let _ = match rng.below(14) {
+            0 => {
+                sc.reals.push(n.clone());
+                writeln!(s, "    {n} : REAL := {}.5;", rng.below(90))
+            }
+            1 => writeln!(s, "    {n} : LREAL := {}.25;", rng.below(900)),
+            2 => writeln!(s, "    {n} : TIME := T#{}ms;", 1 + rng.below(900)),
+            3 => writeln!(s, "    {n} : WORD := 16#{:04X};", rng.below(0xFFFF)),
+            4 => writeln!(s, "    {n} : LINT := {};", rng.below(1_000_000)),
+            5 => writeln!(s, "    {n} : UINT := {};", rng.below(60000)),
+            6 => writeln!(s, "    {n} : SINT := -{};", rng.below(100)),
+            7 => writeln!(s, "    {n} : USINT := {};", rng.below(250)),
+            8 => writeln!(s, "    {n} : UDINT := {};", rng.below(1_000_000)),
+            9 => writeln!(s, "    {n} : ULINT := {};", rng.below(1_000_000)),
+            10 => writeln!(s, "    {n} : DWORD := 16#{:08X};", rng.below(0x7FFF_FFFF)),
+            11 => writeln!(s, "    {n} : DATE := DATE#2024-0{}-1{};", 1 + rng.below(9), rng.below(9)),
+            12 => writeln!(s, "    {n} : WSTRING[12] := \"{}\";", rng.pick(WORDS).to_lowercase()),
+            _ => writeln!(s, "    {n} : INT := INT#{};", rng.below(30000)),
+        };
+    }
+    for _ in 0..rng.below(2) {
+        if w.plain_types.is_empty() {
+            break;
+        }
+        let n = names.fresh(rng, "pt");
+        let _ = writeln!(s, "    {n} : {};", rng.pick(&w.plain_types));
+    }
+    // program-level overlapping direct-address bindings (they may also overlap the global groups)
+    for area in ['Q', 'M'] {
+        if rng.chance(1, 3) {
+            let base = 4 + 8 * rng.below(3) as usize;
+            let (lines, members) = overlap_group(rng, names, area, base, "pv");
+            for l in lines {
+                let _ = writeln!(s, "{l}");
+            }
+            for (n, _t, k) in members {
+                if k == 9 {
+                    sc.bools.push(n);
+                } else {
+                    sc.bitstrs.push((n, k));
+                }
+            }
+        }
+    }
     let _ = writeln!(s, "END_VAR");
     if rng.chance(1, 2) {
         let n = names.fresh(rng, "tmp");
@@ -963,6 +1169,7 @@ pub fn gen_case(rng: &mut Rng, cycles: usize) -> CaseInput {
         enums: Vec::new(),
         structs: Vec::new(),
         arrays: Vec::new(),
+        plain_types: Vec::new(),
         funcs: Vec::new(),
         ifaces: Vec::new(),
         classes: Vec::new(),
@@ -989,6 +1196,7 @@ pub fn gen_case(rng: &mut Rng, cycles: usize) -> CaseInput {
     let cname = names.fresh(rng, "Cfg");
     let _ = writeln!(conf, "CONFIGURATION {cname}");
     conf.push_str(&g.decl);
+    conf.push_str(&g.retain_decl);
     let use_resource = rng.chance(1, 3);
     if use_resource {
         let _ = writeln!(conf, "RESOURCE {} ON CPU", names.fresh(rng, "Res"));
@@ -1005,7 +1213,7 @@ pub fn gen_case(rng: &mut Rng, cycles: usize) -> CaseInput {
     }
     for pn in &prog_names {
         let inst = names.fresh(rng, "Inst");
-        if !task_names.is_empty() && rng.chance(3, 4) {
+        if !task_names.is_empty() && rng.chance(1, 2) {
             let _ = writeln!(conf, "PROGRAM {inst} WITH {} : {pn};", rng.pick(&task_names));
         } else {
             let _ = writeln!(conf, "PROGRAM {inst} : {pn};");
@@ -1070,6 +1278,7 @@ pub fn gen_case(rng: &mut Rng, cycles: usize) -> CaseInput {
         int_inputs: g.int_inputs.clone(),
         direct_inputs: g.direct_inputs.clone(),
         direct_outputs: g.direct_outputs.clone(),
+        const_ranges: g.const_ranges.clone(),
         trace,
     }
 }
